@@ -325,6 +325,8 @@ def discover_and_decide(o, unit, warm, extra_defs=()):
             else:
                 cur = bounds.get(key, o.unwind_start)
             nb = cur + 1 if cur < 4 else cur * 2
+            if nb > o.unwind_max and cur < o.unwind_max:
+                nb = o.unwind_max
             if nb > o.unwind_max:
                 return {'verdict': 'INCONCLUSIVE', 'why': 'loop %s needs more than the cap of %d unwindings' % (key, o.unwind_max),
                         'bounds': bounds, 'rounds': rounds, 'last': r}
